@@ -492,15 +492,16 @@ func (nc *nilCtx) callResultMayBeNil(v ssa.Value, c *ssa.Call, idx int) bool {
 					continue
 				}
 				if !isNilConst(ret.Results[errIdx]) && isNilConst(o) {
-					// ... unless the error returned with it is known to be nil at this return (`if err == nil { return nil, err }`)
-					errNil := false
+					// ... unless the error returned with it may be nil at this return (`if err == nil { return nil, err }`).
+					// The nil result is unobservable only when the error is certainly non-nil at this return.
+					errNonNil := false
 					ep := cx.Fx.path(ret.Results[errIdx])
 					for _, a := range cx.Fx.AtomsAt(ret) {
-						if a.Op == "NIL" && !a.Neg && a.A == ep {
-							errNil = true
+						if a.Op == "NIL" && a.Neg && a.A == ep {
+							errNonNil = true
 						}
 					}
-					if !errNil {
+					if errNonNil {
 						continue
 					}
 				}
@@ -911,6 +912,76 @@ func (cx *Ctx) checkConstructedNonNil(r *Report) map[string]bool {
 	return established
 }
 
+// commaOkMisuse: v, ok := x.(T) with a pointer / interface T yields a nil v when ok is false. Every use of v (other
+// than returning it with its flag, storing it, or testing it for nil) must lie under the true edge of ok.
+func (cx *Ctx) commaOkMisuse(ta *ssa.TypeAssert) string {
+	fx := cx.Fx
+	if !isNilable(ta.AssertedType) {
+		return ""
+	}
+	var val, okv ssa.Value
+	for _, ref := range nonDebugRefs(ta) {
+		if e, isE := ref.(*ssa.Extract); isE {
+			if e.Index == 0 {
+				val = e
+			} else {
+				okv = e
+			}
+		}
+	}
+	if val == nil {
+		return ""
+	}
+	for _, al := range fx.aliasesOf(val) {
+		for _, ref := range nonDebugRefs(al) {
+			switch u := ref.(type) {
+			case *ssa.Phi, *ssa.Store, *ssa.Return, *ssa.MakeInterface, *ssa.ChangeInterface, *ssa.ChangeType:
+				continue
+			case *ssa.BinOp:
+				if _, _, isNT := nilTest(u); isNT {
+					continue
+				}
+			case *ssa.UnOp:
+				if u.Op == token.MUL && u.X != al {
+					continue
+				}
+				if _, isCell := u.X.(*ssa.Alloc); isCell && u.X != al {
+					continue
+				}
+			}
+			if ld, isLd := ref.(*ssa.UnOp); isLd && ld.Op == token.MUL {
+				if _, isAlloc := ld.X.(*ssa.Alloc); isAlloc {
+					continue // a load of the variable holding it: its uses are visited as aliases
+				}
+			}
+			guarded := false
+			if okv != nil {
+				for _, a := range fx.AtomsAt(ref) {
+					c := stripNot(a.Cond)
+					if a.Op == "TRUE" && !a.Neg {
+						for _, oa := range fx.aliasesOf(okv) {
+							if c == oa {
+								guarded = true
+							}
+						}
+					}
+				}
+			}
+			// or the value itself was found non-nil
+			vp := fx.path(al)
+			for _, a := range fx.AtomsAt(ref) {
+				if a.Op == "NIL" && a.Neg && a.A == vp {
+					guarded = true
+				}
+			}
+			if !guarded {
+				return "the value of the checked assertion to " + ta.AssertedType.String() + " is used at " + cx.W.InstrPos(ref) + " on a path that has not found ok true: it is nil when the dynamic type differs (e.g. a key type that does not fit the SigAlg of the request)"
+			}
+		}
+	}
+	return ""
+}
+
 func checkC09(cx *Ctx, r *Report) {
 	w, fx := cx.W, cx.Fx
 	r.Clauses = []string{
@@ -1031,8 +1102,10 @@ func checkC09(cx *Ctx, r *Report) {
 					}
 					if !x.CommaOk {
 						r.Fail("R-ASSERT", w.FuncKey(fn)+":"+x.AssertedType.String(), w.InstrPos(x), "single-result type assertion to "+x.AssertedType.String()+" panics when the value has another dynamic type (e.g. a key type that does not fit the SigAlg of the request)")
+					} else if bad := cx.commaOkMisuse(x); bad != "" {
+						r.Fail("R-ASSERT", w.FuncKey(fn)+":"+x.AssertedType.String(), w.InstrPos(x), bad)
 					} else {
-						r.Ok("R-ASSERT", w.FuncKey(fn)+":"+x.AssertedType.String(), w.InstrPos(x), "checked assertion")
+						r.Ok("R-ASSERT", w.FuncKey(fn)+":"+x.AssertedType.String(), w.InstrPos(x), "checked assertion; the value is used only where ok was found true")
 					}
 				case *ssa.Panic:
 					if c := x.Block().Comment; c == "yield-invalid" || strings.HasPrefix(c, "rangefunc.") {
